@@ -197,3 +197,53 @@ def adjacent_same_type(types=("ASP", "GLU", "HIS", "CYS", "TYR", "LYS", "ARG"), 
 def make_twins(lines, first, second, code="A"):
     """Give residue `second` the number of `first` plus an insertion code (labels only)."""
     return relabel_residues(lines, {second: (first[0], first[1], code)})
+
+
+def free_spots(lines, near, count=2, rmin=2800, rmax=7500, clearance=2700, apart=3200, step=600):
+    """Lattice points around `near` (milli-A) that keep `clearance` to every atom of `lines` and `apart` to each other."""
+    import numpy as np
+    pts = np.array([[r.x, r.y, r.z] for r in (pdbio.parse_line(ln) for ln in lines if is_atom(ln))], dtype=np.int64)
+    out = []
+    rng = range(-rmax, rmax + 1, step)
+    cands = sorted(((dx * dx + dy * dy + dz * dz, (near[0] + dx + 7, near[1] + dy - 3, near[2] + dz + 11))
+                    for dx in rng for dy in rng for dz in rng if rmin * rmin <= dx * dx + dy * dy + dz * dz <= rmax * rmax))
+    for _, p in cands:
+        d2 = ((pts - np.array(p, dtype=np.int64)) ** 2).sum(axis=1)
+        if d2.min() < clearance * clearance:
+            continue
+        if any(sum((a - b) ** 2 for a, b in zip(p, q)) < apart * apart for q in out):
+            continue
+        out.append(p)
+        if len(out) >= count:
+            break
+    return out
+
+
+def buried_anchors(lines, names=(("ASP", "CG"), ("GLU", "CD"), ("TYR", "OH"), ("LYS", "NZ"), ("HIS", "NE2")), top=3):
+    """Defining atoms of titratable side chains ranked by the number of atoms within 15 A (most buried first)."""
+    import numpy as np
+    recs = [pdbio.parse_line(ln) for ln in lines if is_atom(ln)]
+    pts = np.array([[r.x, r.y, r.z] for r in recs], dtype=np.int64)
+    cand = []
+    for r in recs:
+        if (r.resn, r.name.strip()) in names and r.kind == "ATOM":
+            n = int((((pts - np.array([r.x, r.y, r.z])) ** 2).sum(axis=1) < 15000 ** 2).sum())
+            cand.append((n, (r.x, r.y, r.z), f"{r.resn}{r.num}{r.chain}"))
+    cand.sort(reverse=True)
+    return cand[:top]
+
+
+def place_copy(all_lines, part_lines, tmin=4500, tmax=9000, clearance=2700, step=700):
+    """A translation (milli-A) of `part_lines` whose image keeps `clearance` to every atom of `all_lines`; None if none."""
+    import numpy as np
+    pts = np.array([[r.x, r.y, r.z] for r in (pdbio.parse_line(ln) for ln in all_lines if is_atom(ln))], dtype=np.int64)
+    part = np.array([[r.x, r.y, r.z] for r in (pdbio.parse_line(ln) for ln in part_lines if is_atom(ln))], dtype=np.int64)
+    rng = range(-tmax, tmax + 1, step)
+    cands = sorted((dx * dx + dy * dy + dz * dz, (dx + 3, dy - 5, dz + 1)) for dx in rng for dy in rng for dz in rng
+                   if tmin * tmin <= dx * dx + dy * dy + dz * dz <= tmax * tmax)
+    for _, t in cands:
+        img = part + np.array(t, dtype=np.int64)
+        d2 = ((img[:, None, :] - pts[None, :, :]) ** 2).sum(axis=2)
+        if d2.min() >= clearance * clearance:
+            return t
+    return None
